@@ -183,11 +183,32 @@ def is_nontrivial(t):
                for s in fm.subformulas(t) if s[0] == 'not')
 
 
+def deep_temporal(full):
+    """Path formulas where rewrite rules for nested temporal operators interact:
+    'ttt' = exactly three operators, all temporal, over {p,q} (1 382 formulas), and unary chains
+    of length 3..4 (5 with full=True) over not/X/F/G applied to p, p U q, p R q, p and q."""
+    leaves2 = (fm.P, fm.Q)
+    tun = [x for x in fm.LTL_UN if x[0] != 'not']
+    tbin = [x for x in fm.LTL_BIN if x[0] in ('U', 'R')]
+    out = fm.enum_exact(tun, tbin, leaves2, 3)
+    bases = [fm.P, ('U', fm.P, fm.Q), ('R', fm.P, fm.Q), ('and', fm.P, fm.Q)]
+    level = list(bases)
+    for depth_ in range(1, (5 if full else 4) + 1):
+        level = [(o, f) for o in ('not', 'X', 'F', 'G') for f in level]
+        if depth_ >= 3:
+            out += level
+    return out
+
+
 def enum_shard(st, shard, nshards, payload):
     sc = _scope_key(payload['scope'])
     idx = -1
+    deep = deep_temporal(payload.get('deep_full', False))
     for logic in LOGICS:
-        for t in scope_formulas(logic, payload['k']):
+        forms = scope_formulas(logic, payload['k'])
+        if logic in payload.get('deep_logics', ()):
+            forms = forms + deep
+        for t in forms:
             idx += 1
             if idx % nshards != shard:
                 continue
@@ -260,12 +281,16 @@ def run(ctx):
     scope = [[1, 2], 4, -3] if not ctx.thorough else [[1, 2, 3], 5, 61]
     k = 2
     ctx.scopes = ['all formulas with <= %d operators of CTL*, CTL, LTL' % k,
+                  'all path formulas with exactly 3 operators, all temporal, over {p,q}, and all unary chains of length '
+                  '3..%d over not/X/F/G applied to p, p U q, p R q, p and q (%s)' % (
+                      5 if ctx.thorough else 4, 'LTL and CTL* objects' if ctx.thorough else 'LTL objects'),
                   'equivalence on S(1)+%s, lassos <= %d' % ('S(2) + every 61st of S(3)' if ctx.thorough else 'every 3rd structure of S(2)', scope[1])]
     ctx.exhaustive = True
     ctx.assumptions = ['reference semantics vp/ref.py is the trusted base; equivalence is decided on '
                        'the small scope only (a difference needing a larger structure or longer lasso is out of reach)',
                        'LTL.A(g).get_equivalent_restricted_formula() is outside the domain (the restricted LTL alphabet has no quantifier)']
-    f = core.run_sharded(ctx, enum_shard, {'k': k, 'scope': scope})
+    f = core.run_sharded(ctx, enum_shard, {'k': k, 'scope': scope, 'deep_full': ctx.thorough,
+                                           'deep_logics': ['LTL', 'CTLS'] if ctx.thorough else ['LTL']})
     if f is not None:
         ctx.violation(f)
         return
